@@ -45,7 +45,7 @@ def opsC17 (op : String) (j : Json) : Option (Except String Json) :=
           hasExternal := getBoolD j "hasExternal" false,
           osm := (match j.getObjVal? "osm" with | .ok v => (match strList v with | .ok l => some l | _ => none) | _ => none),
           hasEntities := getBoolD j "hasEntities" false }
-      let guard := RowLoop.sheetGuard RowLoop.stdEnv sh rows {}
+      let guard := RowLoop.sheetGuard RowLoop.stdEnv sh rows
       pure (match RowLoop.sheet RowLoop.stdEnv sh rows with
         | .ok () => Json.mkObj [("outcome", "pass"), ("guard", Json.bool guard)]
         | .error (.reject w) => Json.mkObj [("outcome", "reject"), ("what", Json.str w), ("guard", Json.bool guard)]
